@@ -2,6 +2,7 @@ package main
 
 import (
 	"fmt"
+	"strings"
 	"go/ast"
 	"go/token"
 	"go/types"
@@ -631,6 +632,7 @@ type cutSpec struct {
 	lo, hi *big.Int
 	bounds map[string][2]*big.Int // per-variable override
 	alias  string                 // captured values are also published under alias+name
+	mem    []string               // "param:n": the n array elements behind pointer parameter param, named param0..param(n-1)
 	done   bool
 }
 
@@ -724,6 +726,51 @@ func (m *Machine) checkCut(f *frame, in ssa.Instruction) {
 					m.cur.pc = append(m.cur.pc, &Cond{bv: bAnd(bvCmp("bvsle", bvConst(lo, w), bv), bvCmp("bvsle", bv, bvConst(hi, w)))})
 					f.env[sv] = VInt{bv: bv}
 					m.cutVals[v] = VInt{bv: bv}
+				}
+			}
+		}
+		for _, mv := range c.mem {
+			var pname string
+			var n int
+			if _, err := fmt.Sscanf(strings.Replace(mv, ":", " ", 1), "%s %d", &pname, &n); err != nil {
+				panic("bad mem cut " + mv)
+			}
+			var base Ptr
+			found := false
+			for _, prm := range f.fn.Params {
+				if prm.Name() == pname {
+					base = f.env[prm].(Ptr)
+					found = true
+				}
+			}
+			if !found {
+				panic("mem cut: no parameter " + pname)
+			}
+			for i := 0; i < n; i++ {
+				name := fmt.Sprintf("%s%d", pname, i)
+				ep := Ptr{obj: base.obj, path: append(append([]PathElem{}, base.path...), PathElem{k: i})}
+				if c.mode == "abort" {
+					m.cutVals[name] = m.load(ep)
+					continue
+				}
+				lo, hi := c.lo, c.hi
+				if b, ok := c.bounds[name]; ok {
+					lo, hi = b[0], b[1]
+				}
+				sym := m.fresh("cut_" + name)
+				m.nondets = append(m.nondets, nondetInfo{name: sym, w: 64, signed: true, lo: lo, hi: hi})
+				if m.intMode {
+					m.bounds[sym] = [2]*big.Int{lo, hi}
+					m.defs = append(m.defs, cAnd(cCmp("<=", linConst(lo), linSym(sym)), cCmp("<=", linSym(sym), linConst(hi))))
+					m.store(ep, VInt{lin: linSym(sym)})
+					m.cutVals[name] = VInt{lin: linSym(sym)}
+				} else {
+					old := m.load(ep).(VInt)
+					w := old.bv.w
+					bv := bvVar(sym, w)
+					m.cur.pc = append(m.cur.pc, &Cond{bv: bAnd(bvCmp("bvsle", bvConst(lo, w), bv), bvCmp("bvsle", bv, bvConst(hi, w)))})
+					m.store(ep, VInt{bv: bv})
+					m.cutVals[name] = VInt{bv: bv}
 				}
 			}
 		}
